@@ -88,8 +88,17 @@ def main():
         pass
     if 'pinned_suite' not in res and 'pinned_suite' in prev:
         res['pinned_suite'] = prev['pinned_suite']
+    if meta.get('property') and meta['property'] != pid and prev:
+        # the check of ANOTHER property run against this change: kept beside the result of the property's own check
+        prev.setdefault('cross_checks', {})[pid] = res['check']
+        meta['confirmed_by_main_session'] = prev
+        json.dump(meta, open(os.path.join(dst, 'meta.json'), 'w'), indent=1)
+        print(json.dumps(res, indent=1)[:3000])
+        return 0
     if prev.get('check') and not prev['check'].get('with_failing_input'):
-        res['first_run_before_strengthening'] = prev['check']
+        res['first_run_before_strengthening'] = prev.get('first_run_before_strengthening') or prev['check']
+    if prev.get('cross_checks'):
+        res['cross_checks'] = prev['cross_checks']
     meta['confirmed_by_main_session'] = res
     json.dump(meta, open(os.path.join(dst, 'meta.json'), 'w'), indent=1)
     print(json.dumps(res, indent=1)[:3000])
